@@ -471,7 +471,7 @@ impl<K, V, A: Allocator> CaoHashMap<K, V, A> {
         K: Eq + Hash,
     {
         let hash = hash(&key);
-        let i = self.find_ind(hash, &key);
+        let mut i = self.find_ind(hash, &key);
         let pl;
         if self.hashes()[i] != 0 {
             pl = EntryPayload::Occupied(unsafe { &mut *self.values.as_ptr().add(i) });
@@ -479,6 +479,8 @@ impl<K, V, A: Allocator> CaoHashMap<K, V, A> {
             // if it would need to grow on insert, then allocate the new buffer now
             if Self::needs_grow(self.count + 1, self.capacity) {
                 self.grow()?;
+                // the buffers were replaced, the slot has to be looked up again
+                i = self.find_ind(hash, &key);
             }
             unsafe {
                 pl = EntryPayload::Vacant {
